@@ -341,5 +341,45 @@ class ScheduleRandom(Suite):
         return run_case(case)
 
 
-SUITES = [ScheduleEnum(), ScheduleRandom()]
+class LargeQueues(Suite):
+    """Capacities and bursts beyond the moderate range: max_receive_queue of 8-1000 (around 64, 128, 256, 512) with k = up
+    to capacity + 150 client messages, delivered all before the application's first receive, in two halves, or one per
+    application step; the application receives every message.  Same invariants: FIFO, lossless, at most capacity + 1
+    held, no pulling while full."""
+
+    name = 'large_queues'
+    exhaustive = True
+    budget = {'quick': 1, 'thorough': 1}
+    case_timeout = 120
+
+    def cases(self, tier):
+        caps = (8, 63, 64, 65, 127, 128, 129, 255, 256, 257, 300, 511, 512, 513, 1000)
+        for cap in (caps if tier != 'quick' else (8, 64, 128, 129, 256, 257, 300, 513)):
+            for extra in (0, 1, 150):
+                for shape in ('all_first', 'halves', 'alternate'):
+                    for disc in (None, 1000):
+                        if shape != 'all_first' and (extra == 1 or disc is None):
+                            continue
+                        yield {'capacity': cap, 'k': cap + extra, 'disconnect': disc, 'shape': shape}
+
+    def run(self, case):
+        k = case['k']
+        nd = k + (1 if case['disconnect'] is not None else 0)
+        if case['shape'] == 'all_first':
+            word = 'D' * nd + 'A' * k
+        elif case['shape'] == 'halves':
+            word = 'D' * (nd // 2) + 'A' * (k // 3) + 'D' * (nd - nd // 2) + 'A' * (k - k // 3)
+        else:
+            word = 'DA' * k + 'D' * (nd - k)
+        full = dict(case, script=[['recv']] * k + ([['recv']] if case['disconnect'] is not None else []), word=word)
+        try:
+            info = run_case(full)
+        except Violation as v:
+            d = v.detail
+            raise Violation(v.kind, '%s ... %s\n  compact case=%r' % (d[:400], d[-200:], case))
+        return Info(True, [lb for lb in info.labels if not lb.startswith(('cap:', 'k:'))] + ['cap:%s' % ('<128' if case['capacity'] < 128 else '<256' if case['capacity'] < 256 else '>=256'), 'shape:' + case['shape']])
+
+
+
+SUITES = [ScheduleEnum(), ScheduleRandom(), LargeQueues()]
 KNOWN = {}
